@@ -18,6 +18,10 @@ LEVELS = {
     "C10": "model_checking",
     "C16": "model_checking",
     "C20": "model_checking",
+    "C12": "model_checking",
+    "C13": "model_checking",
+    "C14": "fault_enumeration",
+    "C17": "model_checking",
 }
 
 # property -> vlib module with run_property(prop, tier, report)
@@ -26,6 +30,10 @@ RUNNERS = {
     "C10": "plug",
     "C16": "det",
     "C20": "registry",
+    "C12": "front",
+    "C13": "front",
+    "C17": "front",
+    "C14": "front",
 }
 
 
